@@ -105,8 +105,20 @@ func sessOpts() *config.ServerOptions {
 	return o
 }
 
+// openSessionEIO opens a session of the given kind; websocket sessions use revision 3 when v3.
+func openSessionEIO(x *vsched.Exec, w *World, kind string, v3 bool) *sess {
+	if kind == "websocket" && v3 {
+		return openSessionOpt(x, w, kind, false, 3)
+	}
+	return openSessionOpt(x, w, kind, false, 4)
+}
+
 // open performs the handshake (frozen schedule) and optionally leaves a poll pending.
 func openSession(x *vsched.Exec, w *World, kind string, pendingPoll bool) *sess {
+	return openSessionOpt(x, w, kind, pendingPoll, 4)
+}
+
+func openSessionOpt(x *vsched.Exec, w *World, kind string, pendingPoll bool, wsEIO int) *sess {
 	s := &sess{w: w, x: x, kind: kind, causes: map[string]bool{}}
 	x.Frozen = true
 	defer func() { x.Frozen = false }()
@@ -135,7 +147,7 @@ func openSession(x *vsched.Exec, w *World, kind string, pendingPoll bool) *sess 
 			x.Settle()
 		}
 	case "websocket":
-		s.ws = w.DialWS(4, "", false, false, "")
+		s.ws = w.DialWS(wsEIO, "", false, false, "")
 		x.Settle()
 		if !s.ws.Ready() {
 			x.Fail("setup: websocket handshake refused: %d", s.ws.Resp.Code)
